@@ -53,7 +53,10 @@ def gen_plan(rng, tier, i, seed):
             # structure model (the multiplied gene reads go well beyond it)
             "cn_max": rng.choice([None, None, 3, 5, 8]),
             # the profile scan also asks for a region on a chromosome the file does not have
-            "absent_contig": rng.random() < 0.4}
+            "absent_contig": rng.random() < 0.4,
+            # the shipped NA10860 alignments profiled against themselves (real reads, the shipped CYP2D6 catalogue
+            # with its overlapping regions): approximately 2.0 in every region the profile covers
+            "shipped_self": i % 8 == 3}
 
 
 def execute(plan, runner, rundir):
@@ -88,6 +91,17 @@ def judge(plan, outcome):
                 vs.append(_v("two-copy profile sample does not read 2.0 against its own profile", region=reg,
                              gene_index=gi, got=v, profile_route=route, **env))
                 break
+    sh = m.get("shipped_self")
+    if sh:
+        if sh.get("exc"):
+            vs.append(_v("profile sample could not be normalised against its own profile", exc=sh["exc"],
+                         profile_route="shipped NA10860 / CYP2D6", **env))
+        else:
+            for (gi, reg), v in sh["rc"]:
+                if sh["pcov"].get(f"{gi}:{reg}", 0) > 0 and abs(v - 2.0) > 0.03:
+                    vs.append(_v("two-copy profile sample does not read 2.0 against its own profile", region=reg,
+                                 gene_index=gi, got=v, profile_route="shipped NA10860 / CYP2D6 (tolerance 0.03)", **env))
+                    break
     base = m["base"]
     if base.get("exc"):
         return vs
@@ -220,7 +234,9 @@ def evidence(acc):
         },
         "assumptions": [
             "exactness (1e-9) is claimed only for the profile sample fed back to itself and for duplication",
-            "the NA10860 'approximately' clause is not decided (no independent eligible/total ratio)",
+            "the NA10860 'approximately' clause is decided with a tolerance of 0.03 copies (the shipped alignments "
+            "profiled against themselves read 1.987-2.0 on the pinned tree; profile and sample side do not apply the "
+            "same read eligibility rules)",
         ],
     }
 
@@ -288,6 +304,12 @@ def run_segment(seg):
     shutil.copy(refbam, selfbam)
     shutil.copy(refbam + ".bai", selfbam + ".bai")
     res = {"self": {}}
+    if plan.get("shipped_self"):
+        from aldy.common import script_path
+
+        g2d6 = Gene(script_path("aldy.resources.genes/cyp2d6.yml"), genome="hg19")
+        na = script_path("aldy.tests.resources/NA10860.bam")
+        res["shipped_self"] = _measure(g2d6, na, "22:42547463-42548249", na)
     res["self"]["bam"] = _measure(gene, refbam, man["neutral"], selfbam)
     res["self"]["yml"] = _measure(gene, yml, None, selfbam)
     # any sample is, by definition, two copies against the profile generated from itself
